@@ -176,6 +176,84 @@ func newEvalModel(w *World, e *Engine) *evalModel {
 		m.why = "special-form dispatch (a string compared with the form names) not found"
 		return m
 	}
+	// the dispatch is the chain of comparisons each of which is reached by the false edge of the one before; a
+	// test of the same string further down (inside an arm) is an ordinary condition, not a case of the dispatch
+	isCase := func(b *ssa.BasicBlock) bool {
+		iff := blockIf(b)
+		if iff == nil {
+			return false
+		}
+		x, _, ok := strEq(iff.Cond)
+		return ok && x == m.dispatch
+	}
+	inChain := map[*ssa.BasicBlock]bool{}
+	for _, b := range m.EVAL.Blocks {
+		if !isCase(b) {
+			continue
+		}
+		// a head of a chain: no case block falls into it by its false edge
+		head := true
+		for _, p := range b.Preds {
+			if isCase(p) && len(p.Succs) == 2 && p.Succs[1] == b {
+				head = false
+			}
+		}
+		if !head {
+			continue
+		}
+		n := 0
+		for c := b; c != nil && isCase(c) && !inChain[c]; c = c.Succs[1] {
+			n++
+			_ = n
+			inChain[c] = true
+		}
+	}
+	// keep the longest family only when several heads exist: cases of the dispatch dominate the stray tests
+	{
+		var heads []*ssa.BasicBlock
+		for b := range inChain {
+			head := true
+			for _, p := range b.Preds {
+				if inChain[p] && len(p.Succs) == 2 && p.Succs[1] == b {
+					head = false
+				}
+			}
+			if head {
+				heads = append(heads, b)
+			}
+		}
+		if len(heads) > 1 {
+			size := func(h *ssa.BasicBlock) int {
+				n := 0
+				for c := h; c != nil && inChain[c]; c = c.Succs[1] {
+					n++
+					if n > 1000 {
+						break
+					}
+				}
+				return n
+			}
+			bestH, bestN := heads[0], -1
+			for _, h := range heads {
+				if k := size(h); k > bestN || (k == bestN && h.Index < bestH.Index) {
+					bestH, bestN = h, k
+				}
+			}
+			for _, h := range heads {
+				if h == bestH {
+					continue
+				}
+				// a shorter chain nested inside an arm of the dispatch (dominated by the main chain's head) is no part of it
+				if bestH.Dominates(h) && size(h) < 3 {
+					for c := h; c != nil && inChain[c]; {
+						nx := c.Succs[1]
+						delete(inChain, c)
+						c = nx
+					}
+				}
+			}
+		}
+	}
 	var lastFalse *ssa.BasicBlock
 	for _, b := range m.EVAL.Blocks {
 		iff := blockIf(b)
@@ -183,7 +261,7 @@ func newEvalModel(w *World, e *Engine) *evalModel {
 			continue
 		}
 		x, s, ok := strEq(iff.Cond)
-		if !ok || x != m.dispatch {
+		if !ok || x != m.dispatch || !inChain[b] {
 			continue
 		}
 		reg := map[*ssa.BasicBlock]bool{}
@@ -206,7 +284,7 @@ func newEvalModel(w *World, e *Engine) *evalModel {
 		if iff == nil {
 			continue
 		}
-		if x, _, ok := strEq(iff.Cond); ok && x == m.dispatch {
+		if x, _, ok := strEq(iff.Cond); ok && x == m.dispatch && inChain[b] {
 			if last == nil || last.Dominates(b) {
 				last = b
 			}
